@@ -81,6 +81,17 @@ Example C14_run_example :
   term_err (snd (run_ttasks MSys tks init_c)) = [4; 4]%N.
 Proof. exact run_terminal_example. Qed.
 
+Theorem C14_sys_passes_lower_levels : forall s ws,
+  passthrough_text MSys s ws =
+  flat_map (fun w => if stream_eqb (w_stream w) s && match w_level w with LPy => false | _ => true end
+                     then w_data w else []) ws.
+Proof. exact sys_passes_lower_levels. Qed.
+
+Theorem C14_tee_captures_like_sys : forall s ws, captured_text MTee s ws = captured_text MSys s ws.
+Proof. exact tee_captures_like_sys. Qed.
+
+Print Assumptions C14_sys_passes_lower_levels.
+Print Assumptions C14_tee_captures_like_sys.
 Print Assumptions C14_terminal_exact.
 Print Assumptions C14_no_loss.
 Print Assumptions C14_no_invention.
